@@ -609,8 +609,8 @@ def rule_number_whole_and_fits(ctx):
         r.check(("c != in", True) in cs or ("in != c", True) in cs or ("c == in", False) in cs, inst + "/some-digits-read", db.loc(f, x),
                 "the value is stored although strtol() may have read nothing (empty value = 0): facts %s" % cs)
         r.check(("*c == 0", True) in cs or ("*c != 0", False) in cs, inst + "/whole-value-read", db.loc(f, x), "the value is stored although text follows the number: facts %s" % cs)
-        lo = any(pol is True and "numeric_limits" in c and "min()" in c and ">=" in c for c, pol in cs)
-        hi = any(pol is True and "numeric_limits" in c and "max()" in c and "<=" in c for c, pol in cs)
+        lo = any(pol is True and "numeric_limits" in c and (re.search(r">= .*min\(\)", c) or re.search(r"min\(\) <= ", c)) for c, pol in cs)
+        hi = any(pol is True and "numeric_limits" in c and (re.search(r"<= .*max\(\)", c) or re.search(r"max\(\) >= ", c)) for c, pol in cs)
         r.check(lo and hi, inst + "/fits-the-option-type", db.loc(f, x), "the long value is cast to the option's type without a range test against numeric_limits: facts %s" % cs)
     # a referenced option is negated in `long`: -uopt() on the unsigned value itself wraps to 4294967292
     n_neg = 0
